@@ -5,5 +5,5 @@ From Coq Require Import String.
 From QSCGen Require Import G_pins.
 Open Scope string_scope.
 
-Lemma pin_fourier_minimum_current : pin_fourier_minimum = "6a86526cc2cd06bdd875185189cf35f2d0dcad02ef471f5f5b80d1e850a95cbf".
+Lemma pin_fourier_minimum_current : pin_fourier_minimum = "38eeb4608de626d3ce2b9cf713ee220d5051eb026a740c173130cdafaa04fedb".
 Proof. reflexivity. Qed.
